@@ -30,8 +30,35 @@ type Aux struct {
 // classEpoch is incremented each time a class is registered.
 var classEpoch atomic.Int64
 
+// classRedefined is set once a class name has been registered a second
+// time. Instances of the replaced class can then exist.
+var (
+	classRedefined atomic.Bool
+	classNames     sync.Map
+)
+
 func init() {
-	slip.AddClassHook("generic-cache", func(_ *slip.Package, _ string) { classEpoch.Add(1) })
+	slip.AddClassHook("generic-cache", func(_ *slip.Package, name string) {
+		classEpoch.Add(1)
+		if _, loaded := classNames.LoadOrStore(strings.ToLower(name), true); loaded {
+			classRedefined.Store(true)
+		}
+	})
+}
+
+// replacedClassArg returns true if one of the args is an instance of a class
+// that has been redefined since the instance was made. Such an instance keeps
+// the original class, and with it the original precedence list, while the
+// cache key is the class name which it shares with the new class.
+func replacedClassArg(args slip.List) bool {
+	for _, a := range args {
+		if inst, ok := a.(slip.Instance); ok {
+			if c := inst.Class(); c != nil && c.Pkg() != nil && c.Pkg().FindClass(c.Name()) != c {
+				return true
+			}
+		}
+	}
+	return false
 }
 
 // NewAux creates a new generic aux.
@@ -81,11 +108,16 @@ func (aux *Aux) Call(gf slip.Object, s *slip.Scope, args slip.List, depth int) s
 		aux.cache = map[string]*slip.Method{}
 		aux.epoch = e
 	}
-	key := buildSpecKey(args[:aux.reqCnt])
-	meth := aux.cache[key]
-	if meth == nil {
-		if meth = aux.buildCacheMeth(args); meth != nil {
-			aux.cache[key] = meth
+	var meth *slip.Method
+	if classRedefined.Load() && replacedClassArg(args[:aux.reqCnt]) {
+		// Not cached, the key belongs to the class now registered.
+		meth = aux.buildCacheMeth(args)
+	} else {
+		key := buildSpecKey(args[:aux.reqCnt])
+		if meth = aux.cache[key]; meth == nil {
+			if meth = aux.buildCacheMeth(args); meth != nil {
+				aux.cache[key] = meth
+			}
 		}
 	}
 	aux.moo.Unlock()
